@@ -36,7 +36,11 @@ ASSUMES = ["time stamps lie in [TimeStampMin, TimeStampMax] = [0, 2^63-1] (TimeR
            "deletes are issued only at or before the start of every open writer (unary.DB.delete holds an absolute "
            "control gate over the range); the model covers ungated deletes too, the monitor makes no demand on "
            "writers they reach",
-           "sequential histories (races are C09)"]
+           "sequential histories, plus writer operations that run while DB.Delete executes its offset resolvers "
+           "(the window its position re-resolution exists for); other races are C09",
+           "writers acting during a delete do not update the two domains the delete has captured (start/end domain): "
+           "the control gate of unary.DB.delete keeps writers of the deleted range out; the generator uses fresh "
+           "writers"]
 PARTIAL = None
 
 ALPHA = [0, 1, 5, 10, 12, 15, 20, 21, 25, 30, 40, 50, MAXTS - 1, MAXTS]
@@ -520,7 +524,10 @@ LEVEL_TEXT = ("Machine-checked Coq theorems over an executable Gallina copy of c
               "start lies inside data cannot open (C03_open_inside_fails); an overlapping or backwards commit fails "
               "with a validation error (C03_commit_overlap_fails, C03_commit_backwards_fails); the binary search meets "
               "its specification (C03_search_spec, C03_search_complete); everything committed is enumerated by the "
-              "iterator (C03_committed_is_readable). The model is tied to /repo on every run by driving the real "
+              "iterator (C03_committed_is_readable); commits that land while Delete resolves its offsets keep the "
+              "invariant because both captured positions are re-resolved (C03_delete_during_commits_inv, "
+              "C03_repechage_finds), and the monitor's invariant clause accepts every model state "
+              "(C03_monitor_invariant_sound). The model is tied to /repo on every run by driving the real "
               "domain.DB on generated histories and comparing, after every operation, error class, iterator "
               "enumeration with bytes read, raw index pointers, file sizes and writer Start/End/file key inside Coq; "
               "a decidable monitor states the property on the implementation's observations and yields the replay.")
@@ -533,4 +540,6 @@ LEVEL_NOTE = ("Trusted: Coq kernel/vm_compute; hand-written model (tied by corre
               "switch, F19 WriterConfig.Validate returned nil); C03_upstream_*_refuted keep the witnesses. The commit "
               "theorems about the writer's own pointer hold for histories whose deletes respect the unary control gate "
               "(C03_own_pointer_present); C03_ungated_delete_panics_refuted shows the domain package alone panics "
-              "otherwise (not reachable through unary/cesium).")
+              "otherwise (not reachable through unary/cesium). The equality of a delete-with-concurrent-commits with a "
+              "serial order (insert;delete for domains landing between the start and end domain, delete;insert "
+              "otherwise) is not proved; only invariant preservation, clean failure and the re-resolution are.")
